@@ -716,3 +716,25 @@ def check_skeleton(ctx: Ctx, rule: str, fi: FuncInfo, specs: Sequence[str], what
     raise AnalysisError(
         f"{fi.where}: skeleton {show(impl)[:200]} is neither the specification nor a point change of it: {show(spec_terms[0])[:200]}; cannot decide ({rule})"
     )
+
+
+def classify_term(repo, impl, spec_terms) -> Tuple[str, str]:
+    """Three-valued comparison of one term with alternative specifications: ('ok', why) when equal or propositionally
+    equal to one of them, ('violation', why) on positive evidence (a point change, or the same atoms combined into a
+    different boolean function), ('unknown', '') otherwise."""
+    impl = canon_sym(impl)
+    spec_terms = [canon_sym(s) for s in spec_terms]
+    if impl in spec_terms:
+        return "ok", "equal"
+    for sp in spec_terms:
+        if prop_equivalent(impl, sp, repo) is True:
+            return "ok", "propositionally equal"
+    if has_unrecognised(impl):
+        return "unknown", ""
+    for sp in spec_terms:
+        if point_diffs(impl, sp) == 1:
+            return "violation", f"computes  {show(impl)}  but the property requires  {show(sp)}"
+        if same_atoms(impl, sp) and prop_equivalent(impl, sp, repo) is False:
+            w = getattr(prop_equivalent, "witness", {})
+            return "violation", f"computes  {show(impl)}  but the property requires  {show(sp)}  (they differ when {w})"
+    return "unknown", ""
